@@ -81,6 +81,20 @@ def stepM (m : ReadMode) (toks : List String) : String :=
 def step (line : String) : String :=
   let toks := (line.trimAscii.toString.splitOn " ").filter (· ≠ "")
   match toks with
+  | ["DO", indef, opc, srcIndef] =>
+    -- DO <target indef> <op 0..9> <source indef>  -> unchanged | header-written   (metaOpDisk; header write = marker byte)
+    match nats [indef, opc, srcIndef] with
+    | some [indef, opc, srcIndef] =>
+      let ops : List MetaOp := [.defDim, .defVar, .putAtt, .delAtt, .renameAtt, .renameDim, .renameVar, .setFill, .defVarFill,
+                                .copyAtt (srcIndef != 0)]
+      match ops[opc]? with
+      | some op =>
+        let s : NCState := ⟨false, indef != 0, false, false, indef != 0, 0⟩
+        match metaOpDisk (fun f => f ++ [1]) s (some []) op with
+        | some [] => "unchanged"
+        | _ => "header-written"
+      | none => "bad-args"
+    | _ => "bad-args"
   | ["AB", isNew, indef, indep, ro, hasOld, nrv, redefFirst] =>
     match nats [isNew, indef, indep, ro, hasOld, nrv, redefFirst] with
     | some [isNew, indef, indep, ro, hasOld, nrv, redefFirst] =>
